@@ -5,7 +5,7 @@ CONSTANTS
     A = 4
     MinPS = 2
     CheckPS = TRUE
-    MaxN = 150
+    MaxN = 127
     HomMax = 33
     Qs = {5, 7}
     MaxShares = 4
